@@ -19,6 +19,7 @@ ap.add_argument("--filefam", default="plain")
 ap.add_argument("--simulate", default=None)
 ap.add_argument("--show", type=int, default=3)
 ap.add_argument("--salt", type=int, default=0)
+ap.add_argument("--twin", default=None)
 ap.add_argument("--timeout", type=int, default=600)
 ap.add_argument("--module", default="MC_Core.tla")
 a = ap.parse_args()
@@ -34,6 +35,8 @@ print("gen: generated=%d distinct=%d depth=%d behaviours=%d errors=%s (%.1fs)" %
 sel, ntags = engine.select(beh, a.n, a.seed)
 print("selected %d of %d behaviours, %d tag vectors" % (len(sel), len(beh), ntags))
 cfg = dict(consts, render=a.render, filefam=a.filefam, salt=a.salt)
+if a.twin:
+    cfg["twin"] = json.loads(a.twin)
 t0 = time.time()
 results = engine.replay_many(gitai, [(cfg, b, "r%d" % i) for i, b in enumerate(sel)])
 errs = [e for _, _, e in results if e]
@@ -64,11 +67,11 @@ for k in sorted(classes):
     rs = classes[k]
     print("==== %s : %d runs" % (k, len(rs)))
     for r in sorted(rs, key=lambda r: len(r["events"]))[:a.show]:
-        beh_ = [dict((kk, vv) for kk, vv in e.items() if kk not in ("git", "obs")) for e in r["events"][1:]]
+        beh_ = [dict((kk, vv) for kk, vv in e.items() if kk not in ("git", "obs", "twin")) for e in r["events"][1:]]
         print("   ", json.dumps(beh_))
         print("    viol=%s drift=%s" % (r["viol"], r["drift"]))
 json.dump([{"run": r["run"], "viol": r["viol"], "drift": r["drift"], "taint": r["taint"],
-            "beh": [dict((kk, vv) for kk, vv in e.items() if kk not in ("git", "obs")) for e in r["events"][1:]]}
+            "beh": [dict((kk, vv) for kk, vv in e.items() if kk not in ("git", "obs", "twin")) for e in r["events"][1:]]}
            for r in runs if r["viol"] or r["drift"]], open(os.path.join(wd, "bad.json"), "w"), indent=0)
 # keep drift details for inspection
 json.dump({str(k): v for k, v in details.items()}, open(os.path.join(wd, "drift_details.json"), "w"))
